@@ -44,6 +44,44 @@ def _carrier(name):
     return c, [float(x) for x in c]
 
 
+# ways of obtaining a UnitsSystem object that READS as the system t: written directly, or edited through its public setters
+SYS_HISTS = ("direct", "attr", "item", "from-other-attr", "from-other-item", "edit-space", "edit-time", "edit-quantity",
+             "copy-of-edited", "edit-of-copy", "via-units-sys")
+SYS_ROLES = ("target-system", "target-units", "source")
+_SYS_KEYS = ("space", "time", "quantity")
+
+
+def _sys_by_history(hist, t):
+    OTHER, OTHER2 = si.MIXED[1], si.MIXED[5]           # (km, h, kmol), (nm, µs, pmol)
+    if hist == "direct":
+        return UnitsSystem(space=t[0], time=t[1], quantity=t[2])
+    if hist in ("attr", "copy-of-edited", "from-other-attr"):
+        us = UnitsSystem() if hist != "from-other-attr" else uq.mk_sys(OTHER)
+        us.space = t[0]
+        us.time = t[1]
+        us.quantity = t[2]
+        return us.copy() if hist == "copy-of-edited" else us
+    if hist in ("item", "from-other-item", "edit-of-copy"):
+        us = UnitsSystem() if hist == "item" else (uq.mk_sys(OTHER) if hist == "from-other-item" else uq.mk_sys(OTHER).copy())
+        for k, v in zip(_SYS_KEYS, t):
+            us[k] = v
+        return us
+    if hist.startswith("edit-"):
+        k = _SYS_KEYS.index(hist[5:])
+        start = list(t)
+        start[k] = OTHER[k] if OTHER[k] != t[k] else OTHER2[k]
+        us = uq.mk_sys(tuple(start))
+        setattr(us, _SYS_KEYS[k], t[k])
+        return us
+    if hist == "via-units-sys":
+        u = Units(uq.mk_sys(OTHER), uq.mk_dim((1, 1, 1)))
+        u.sys.space = t[0]
+        u.sys["time"] = t[1]
+        u.sys.quantity = t[2]
+        return u.sys
+    raise ValueError(hist)
+
+
 def _cmp_values(tag, got_vals, exact, out, what):
     """got_vals (numbers) against exact (Fractions), relative TOL; one violation at most."""
     if len(got_vals) != len(exact):
@@ -316,6 +354,35 @@ def _check(case, notes):
                     out.append(("C06:itemlist-mismatch:%s:%s:accepted" % (route, "same-system" if src == dst else "other-system"),
                                 "array in %r built from %r (item %d has dimension %s, the array %s) holds %r instead of raising"
                                 % (si.units_string(dst, dim), [str(x) for x in lst], pos, d2, dim, [float(x) for x in arr.value])))
+        elif sub == "syshist":
+            # a UnitsSystem obtained by constructor-then-setter edits (hist) that reads as the system t must convert exactly like t
+            # written directly, as conversion target (UnitsSystem or Units built on it) and as the system of the quantity converted
+            src, dst, dim = tuple(case["src"]), tuple(case["dst"]), tuple(case["dim"])
+            kind, role, hist = case["kind"], case["role"], case["hist"]
+            t = src if role == "source" else dst
+            us = _sys_by_history(hist, t)
+            tag = "syshist:%s:%s:%s" % (hist, role, kind)
+            if uq.sys_of(Units(us, uq.mk_dim(dim))) != t:
+                out.append(("C06:%s:system-reads-differently" % tag, "the edited system reads %s, expected %s" % (us, t)))
+                return out
+            ref = _mk(kind, src, dim)                     # the quantity, in a system written directly
+            if role == "source":
+                vals = VALS[0] if kind == "scalar" else list(VALS)
+                q = (UnitValue if kind == "scalar" else UnitArray)(vals, Units(us, uq.mk_dim(dim)))
+                got = q.convert(uq.mk_sys(dst))
+            elif role == "target-system":
+                got = ref.convert(us)
+            else:
+                got = ref.convert(Units(us, uq.mk_dim(dim)))
+            before = len(out)
+            _check_result(tag, ref, got, dst, dim, out, case, exact_identity=(src == dst))
+            if len(out) == before:
+                direct = ref.convert(uq.mk_sys(dst))
+                if _values(direct) != _values(got):
+                    out.append(("C06:%s:differs-from-direct" % tag, "%r with the edited system, %r with the system written directly"
+                                % (_values(got), _values(direct))))
+            if uq.sys_of(Units(us, uq.mk_dim(dim))) != t:
+                out.append(("C06:%s:system-mutated" % tag, "the units system reads %s after the conversion" % us))
         elif sub == "carrier":
             src, dst, dim = tuple(case["src"]), tuple(case["dst"]), tuple(case["dim"])
             car, route = case["carrier"], case["route"]
@@ -664,6 +731,19 @@ def _spaces(tier):
                "one, must raise: 36 systems x {same, other} x every ordered pair of different dimensions of {-1,0,1}^3 x 3 positions x %s"
                % ("3 routes" if tier == "thorough" else "constructor, + 6 systems x {same, other} x the same dimension pairs x middle position x {value setter, set_value}"),
                gen_itemlist_mis, 36 * 2 * 27 * 26 * 3 * len(IM_ROUTES) + len(IM_SMALL) * 2 * 27 * 26 * 2))
+    def gen_syshist():
+        for t in S36:
+            for o in H6:
+                for dim in dims_c:
+                    for hist in SYS_HISTS:
+                        for role in SYS_ROLES:
+                            for kind in ("scalar", "array"):
+                                a, b = (t, o) if role == "source" else (o, t)
+                                yield {"sub": "syshist", "src": a, "dst": b, "dim": dim, "kind": kind, "role": role, "hist": hist}
+    sp.append(("units-system history: a UnitsSystem reading as each of 36 systems, written directly or obtained through its setters (attributes, "
+               "item assignment, from the default / another system, one component, copy of an edited system, edit of a copy, through "
+               "Units.sys) used as target system, inside target Units, or as the system of the quantity: x 6 other systems x 2 dimensions "
+               "x 11 histories x 3 roles x {scalar,array}", gen_syshist, 36 * 6 * len(dims_c) * len(SYS_HISTS) * len(SYS_ROLES) * 2))
     return sp
 
 
